@@ -299,8 +299,11 @@ pub enum Op {
     /// `hint`: what the caller-supplied source reports as `size_hint` (always a *correct* bound):
     /// 0 exact, 1 `(0, None)`, 2 `(0, Some(n))` (like `filter`), 3 `(n/2, Some(n + 3))` (like a chain
     /// of an exact and a filtered part), 4 `(n, None)`
-    Extend { n: u8, panic_at: Option<u8>, #[serde(default)] hint: u8 },
-    Collect { n: u8, panic_at: Option<u8>, #[serde(default)] hint: u8 },
+    /// `gap = Some(g)` (only without `panic_at`): a source that is not fused — it answers `None` once when it is
+    /// asked for item g mod (n+1) and would go on with the remaining items if it were polled again. A plain vector
+    /// stops at the first `None`; the reference is `Vec` itself fed from an identical source
+    Extend { n: u8, panic_at: Option<u8>, #[serde(default)] hint: u8, #[serde(default)] gap: Option<u8> },
+    Collect { n: u8, panic_at: Option<u8>, #[serde(default)] hint: u8, #[serde(default)] gap: Option<u8> },
     Clear,
     Len,
     Get { i: u16, past: u8 },
@@ -547,7 +550,7 @@ impl World for C18 {
         // most plans start from a non-empty container
         if rng.chance(3, 4) {
             let n0 = if deep { rng.below(200) } else { rng.below(25) };
-            ops.push(Op::Collect { n: n0 as u8, panic_at: None, hint: gen_hint(rng) });
+            ops.push(Op::Collect { n: n0 as u8, panic_at: None, hint: gen_hint(rng), gap: None });
         }
         for _ in 0..n_ops {
             let k = rng.weighted(&weights);
@@ -564,11 +567,13 @@ impl World for C18 {
                     },
                     panic_at: if unwind_ok && rng.chance(1, 3) { Some(rng.below(9) as u8) } else { None },
                     hint: gen_hint(rng),
+                    gap: if rng.chance(1, 6) { Some(rng.below(12) as u8) } else { None },
                 },
                 4 => Op::Collect {
                     n: rng.below(25) as u8,
                     panic_at: if unwind_ok && rng.chance(1, 4) { Some(rng.below(25) as u8) } else { None },
                     hint: gen_hint(rng),
+                    gap: if rng.chance(1, 6) { Some(rng.below(12) as u8) } else { None },
                 },
                 5 => Op::Clear,
                 6 => Op::Len,
@@ -655,28 +660,40 @@ impl World for C18 {
             let mut simpler: Vec<Op> = Vec::new();
             let shrink_sched = |s: &Vec<Step>| -> Vec<Vec<Step>> { shrink_list(s).into_iter().take(12).collect() };
             match op {
-                Op::Extend { n, panic_at, hint } => {
+                Op::Extend { n, panic_at, hint, gap } => {
                     if *n > 0 {
-                        simpler.push(Op::Extend { n: n / 2, panic_at: *panic_at, hint: *hint });
-                        simpler.push(Op::Extend { n: n - 1, panic_at: *panic_at, hint: *hint });
+                        simpler.push(Op::Extend { n: n / 2, panic_at: *panic_at, hint: *hint, gap: *gap });
+                        simpler.push(Op::Extend { n: n - 1, panic_at: *panic_at, hint: *hint, gap: *gap });
                     }
                     if panic_at.is_some() {
-                        simpler.push(Op::Extend { n: *n, panic_at: None, hint: *hint });
+                        simpler.push(Op::Extend { n: *n, panic_at: None, hint: *hint, gap: *gap });
                     }
                     if *hint != 0 {
-                        simpler.push(Op::Extend { n: *n, panic_at: *panic_at, hint: 0 });
+                        simpler.push(Op::Extend { n: *n, panic_at: *panic_at, hint: 0, gap: *gap });
+                    }
+                    if let Some(g) = gap {
+                        simpler.push(Op::Extend { n: *n, panic_at: *panic_at, hint: *hint, gap: None });
+                        if *g > 0 {
+                            simpler.push(Op::Extend { n: *n, panic_at: *panic_at, hint: *hint, gap: Some(0) });
+                        }
                     }
                 }
-                Op::Collect { n, panic_at, hint } => {
+                Op::Collect { n, panic_at, hint, gap } => {
                     if *n > 0 {
-                        simpler.push(Op::Collect { n: n / 2, panic_at: *panic_at, hint: *hint });
-                        simpler.push(Op::Collect { n: n - 1, panic_at: *panic_at, hint: *hint });
+                        simpler.push(Op::Collect { n: n / 2, panic_at: *panic_at, hint: *hint, gap: *gap });
+                        simpler.push(Op::Collect { n: n - 1, panic_at: *panic_at, hint: *hint, gap: *gap });
                     }
                     if panic_at.is_some() {
-                        simpler.push(Op::Collect { n: *n, panic_at: None, hint: *hint });
+                        simpler.push(Op::Collect { n: *n, panic_at: None, hint: *hint, gap: *gap });
                     }
                     if *hint != 0 {
-                        simpler.push(Op::Collect { n: *n, panic_at: *panic_at, hint: 0 });
+                        simpler.push(Op::Collect { n: *n, panic_at: *panic_at, hint: 0, gap: *gap });
+                    }
+                    if let Some(g) = gap {
+                        simpler.push(Op::Collect { n: *n, panic_at: *panic_at, hint: *hint, gap: None });
+                        if *g > 0 {
+                            simpler.push(Op::Collect { n: *n, panic_at: *panic_at, hint: *hint, gap: Some(0) });
+                        }
                     }
                 }
                 Op::GetRange { r, sched, end } => {
@@ -1068,22 +1085,28 @@ impl<'c, 'a> Exec<'c, 'a> {
                 }
                 Some(if m.is_some() { "some" } else { "none" })
             }
-            Op::Extend { n: cnt, panic_at, hint } => {
+            Op::Extend { n: cnt, panic_at, hint, gap } => {
                 if *hint != 0 {
                     self.ctx.probe("source-with-inexact-size-hint");
                 }
                 let cnt = *cnt as usize;
                 let items: Vec<Item> = (0..cnt).map(|_| self.fresh()).collect();
                 let at = panic_at.map(|k| k as usize % (cnt + 1));
+                let gap_at = if at.is_none() { gap.map(|g| g as usize % (cnt + 1)) } else { None };
                 let sut = self.sut.as_mut().unwrap();
                 let r = catch(|| {
-                    let mut src = PanicSource { items: &items, pos: 0, panic_at: at, hint: *hint };
+                    let mut src = PanicSource { items: &items, pos: 0, panic_at: at, hint: *hint, gap: gap_at };
                     sut.extend(&mut src);
                 });
                 self.ctx.changed();
                 match (r, at) {
                     (Caught::Ok(()), None) => {
-                        self.model.extend(items.iter().copied());
+                        // the reference is `Vec` itself on an identical source (it stops at the first `None`)
+                        let mut src = PanicSource { items: &items, pos: 0, panic_at: None, hint: *hint, gap: gap_at };
+                        self.model.extend(&mut src);
+                        if gap_at.is_some() {
+                            self.ctx.probe("source-that-is-not-fused");
+                        }
                         ev!(self.ctx, "{n} extend {cnt}");
                         Some("ok")
                     }
@@ -1137,21 +1160,27 @@ impl<'c, 'a> Exec<'c, 'a> {
                     }
                 }
             }
-            Op::Collect { n: cnt, panic_at, hint } => {
+            Op::Collect { n: cnt, panic_at, hint, gap } => {
                 if *hint != 0 {
                     self.ctx.probe("source-with-inexact-size-hint");
                 }
                 let cnt = *cnt as usize;
                 let items: Vec<Item> = (0..cnt).map(|_| self.fresh()).collect();
                 let at = panic_at.map(|k| k as usize % (cnt + 1));
+                let gap_at = if at.is_none() { gap.map(|g| g as usize % (cnt + 1)) } else { None };
                 let r = catch(|| {
-                    let mut src = PanicSource { items: &items, pos: 0, panic_at: at, hint: *hint };
+                    let mut src = PanicSource { items: &items, pos: 0, panic_at: at, hint: *hint, gap: gap_at };
                     (d.collect)(&mut src)
                 });
                 match (r, at) {
                     (Caught::Ok(s), None) => {
                         self.sut = Some(s);
-                        self.model = items;
+                        // the reference is `Vec` itself on an identical source (it stops at the first `None`)
+                        let mut src = PanicSource { items: &items, pos: 0, panic_at: None, hint: *hint, gap: gap_at };
+                        self.model = Vec::from_iter(&mut src);
+                        if gap_at.is_some() {
+                            self.ctx.probe("source-that-is-not-fused");
+                        }
                         self.ctx.changed();
                         ev!(self.ctx, "{n} collect {cnt}");
                         Some("ok")
@@ -1657,6 +1686,8 @@ struct PanicSource<'a> {
     panic_at: Option<usize>,
     /// see `Op::Extend`
     hint: u8,
+    /// not fused: one `None` in front of this item, then the rest (see `Op::Extend`)
+    gap: Option<usize>,
 }
 
 impl<'a> Iterator for PanicSource<'a> {
@@ -1664,6 +1695,10 @@ impl<'a> Iterator for PanicSource<'a> {
     fn next(&mut self) -> Option<Item> {
         if self.panic_at == Some(self.pos) {
             inject_panic(18);
+        }
+        if self.gap == Some(self.pos) {
+            self.gap = None;
+            return None;
         }
         let r = self.items.get(self.pos).copied();
         self.pos += 1;
@@ -1675,7 +1710,11 @@ impl<'a> Iterator for PanicSource<'a> {
         r
     }
     fn size_hint(&self) -> (usize, Option<usize>) {
-        let n = self.items.len().saturating_sub(self.pos);
+        // what is left before the next `None`
+        let n = match self.gap {
+            Some(g) => g.saturating_sub(self.pos),
+            None => self.items.len().saturating_sub(self.pos),
+        };
         match self.hint {
             1 => (0, None),
             2 => (0, Some(n)),
